@@ -90,6 +90,8 @@ def sdl_exec(types, roots, hooks=False):
     hk = " @hk" if hooks else ""
     if hooks:
         out.append("directive @hk on FIELD_DEFINITION | ARGUMENT_DEFINITION | ENUM | ENUM_VALUE | INPUT_FIELD_DEFINITION | FIELD")
+    if any(a.get("dirs") for td in types.values() if td["kind"] in ("OBJECT", "INTERFACE") for fd in td["fields"].values() for a in fd["args"]):
+        out.append("directive @boom on ARGUMENT_DEFINITION")
     implements = {}
     for tn, td in types.items():
         if td["kind"] == "INTERFACE":
